@@ -300,6 +300,8 @@ class World:
             if "err" in r:
                 if "locked" in r["err"]:
                     self.probes["filter refused: database is locked"] += 1
+                elif ai in self.limited:
+                    self.probes["filter failed under disk-full"] += 1   # a reader that has to roll a hot journal back cannot write either
                 else:
                     self.viol("C09.filter-count", None, {"where": where}, "filter failed: " + r["err"])
             else:
@@ -483,14 +485,20 @@ class World:
             r = self.actor(ai).call(cmd)
             self.log.append(["filter", ai, op["m"], op.get("p"), op.get("n"), sorted(map(tuple, r.get("rows", [])), key=repr) if op.get("n") in (None, 2000) else len(r.get("rows", []))])
             if "err" in r:
-                self.viol("C09.filter-count", None, {"where": where}, "filter raised with no fault active: " + r["err"][:300])
+                if ai in self.limited:
+                    self.probes["filter failed under disk-full"] += 1   # e.g. a hot journal left by a killed writer cannot be rolled back
+                else:
+                    self.viol("C09.filter-count", None, {"where": where}, "filter raised with no fault active: " + r["err"][:300])
             else:
                 self.check_filter(op, r["rows"], where)
         elif k == "list_modules":
             r = self.actor(ai).call({"op": "list_modules"})
             self.log.append(["list_modules", ai, sorted(r.get("modules", []), key=repr)])
             if "err" in r:
-                self.viol("C09.modules", None, {"where": where}, "list_modules raised: " + r["err"][:300])
+                if ai in self.limited:
+                    self.probes["list_modules failed under disk-full"] += 1
+                else:
+                    self.viol("C09.modules", None, {"where": where}, "list_modules raised: " + r["err"][:300])
             else:
                 self.check_modules(r["modules"], where)
         elif k == "reopen":
